@@ -259,7 +259,14 @@ namespace jsoncons {
                             if ((item.storage_kind() == json_storage_kind::array || item.storage_kind() == json_storage_kind::object)
                                 && !item.empty()) // non-empty object or array
                             {
-                                data_.push_back(std::move(item));
+                                JSONCONS_TRY
+                                {
+                                    data_.push_back(std::move(item));
+                                }
+                                JSONCONS_CATCH(...)
+                                {
+                                    // out of memory: the item stays where it is and is destroyed with its parent
+                                }
                             }
                         }
                         current.clear();                           
@@ -272,7 +279,14 @@ namespace jsoncons {
                             if ((kv.value().storage_kind() == json_storage_kind::array || kv.value().storage_kind() == json_storage_kind::object)
                                 && !kv.value().empty()) // non-empty object or array
                             {
-                                data_.push_back(std::move(kv.value()));
+                                JSONCONS_TRY
+                                {
+                                    data_.push_back(std::move(kv.value()));
+                                }
+                                JSONCONS_CATCH(...)
+                                {
+                                    // out of memory: the item stays where it is and is destroyed with its parent
+                                }
                             }
                         }
                         current.clear();                           
